@@ -237,6 +237,18 @@ impl Sharder {
     }
 }
 
+#[cfg(scylla_verif)]
+impl Sharder {
+    /// Verification hook: pass-through to the private `calculate_lowest_port_for_shard_in_range`.
+    pub(crate) fn verif_lowest_port_for_shard_in_range(
+        &self,
+        shard: u16,
+        port_range: &ShardAwarePortRange,
+    ) -> Option<u16> {
+        self.calculate_lowest_port_for_shard_in_range(shard, port_range)
+    }
+}
+
 #[derive(Clone, Error, Debug)]
 pub(crate) enum ShardingError {
     /// This indicates that we are most likely connected to a Cassandra cluster.
